@@ -464,7 +464,7 @@ fn c15_step(step: &Value, with_indicators: bool, tainted: &mut bool) -> Value {
     let hash = format!("{:x}", md5::compute(txt.as_bytes()));
     let mut r = json!({"applied": applied, "kinds": kinds, "hash": hash});
     let n_edits = step["edits"].as_array().map(|a| a.len()).unwrap_or(0);
-    if applied < n_edits {
+    if applied < n_edits && step["require_all"].as_bool().unwrap_or(true) {
         r["class"] = json!("n/a");
         return r;
     }
